@@ -7,10 +7,15 @@ for d in sorted(glob.glob("/verif/seeded/C*_m*/")):
     name = os.path.basename(d.rstrip("/"))
     res = m.get("check_result", "")
     clause = res.split("#", 1)[1].strip() if "#" in res else res
+    reg = m.get("regression", {})
+    if m.get("caught") and not res.startswith("exit=1"):
+        clause = f"(first run: {clause[:60]}) caught after strengthening - regression {reg.get('run', '')}: {reg.get('result', '')}"
+    if not m.get("caught") and m.get("note"):
+        clause = m["note"]
     rows.append(f"| {name} | {m.get('summary', '')[:160].replace('|', '/').replace(chr(10), ' ')} | {m.get('needs', '')[:140].replace('|', '/').replace(chr(10), ' ')} | "
-                f"{'caught' if m.get('caught') else 'MISSED'} (quick) | {clause[:140].replace('|', '/')} |")
+                f"{'caught' if m.get('caught') else 'not flagged (documented)'} (quick) | {clause[:260].replace('|', '/')} |")
 open("/verif/seeded/INDEX.md", "w").write(
     "# Seeded changes kept under /verif/seeded\n\nEach directory holds patch.diff, the demonstration (demo*.py) and meta.json. "
-    "`tools/mutall.sh '<pattern>'` re-runs the quick check of every kept change against /repo (apply, check, revert).\n\n"
+    "`tools/mutall_wt.sh [lanes]` re-runs the quick check of every kept change, each against its own scratch worktree of /repo (/repo itself is not touched); the column result is the latest full regression.\n\n"
     "| change | summary | needs | result | first reported clause |\n|---|---|---|---|---|\n" + "\n".join(rows) + "\n")
 print(len(rows), "rows")
